@@ -2,4 +2,5 @@ import Balm
 import BalmProofs.AttrTest
 import BalmProofs.Bfs
 import BalmProofs.Drivers
+import BalmProofs.ReachSpec
 /-! Property C01: theorems are listed in `obligations.json`; see DESIGN.md section 6. -/
